@@ -385,6 +385,25 @@ func (e *Engine) isWaited(structT types.Type, field int) bool {
 	return false
 }
 
+// waitedSVNames: names of the heap arrays of the fields some condition variable's waiters depend on.
+func (e *Engine) waitedSVNames() map[string]bool {
+	out := map[string]bool{}
+	for _, c := range e.contracts.Conds {
+		p := e.typesPkg(c.Pkg)
+		if p == nil {
+			continue
+		}
+		for _, w := range c.Waits {
+			i := strings.Index(w, ".")
+			if i < 0 {
+				continue
+			}
+			out["F_"+sanitizeID(p.Name()+"."+w[:i])+"_"+w[i+1:]] = true
+		}
+	}
+	return out
+}
+
 // guardedSVs: state variables of every guarded field, plus the element/map heaps of guarded slices/maps.
 // lockClassOf: the lock class of the mutex an SSA value denotes (by its static origin).
 func (e *Engine) lockClassOf(v ssa.Value) string {
